@@ -416,6 +416,13 @@ def run_euler(ctx, jobs):
         if len(ss) < 2:
             ctx.violation("euler:samples", "an on_iteration Euler run of 2 iterations recorded %d samples" % len(ss), case, impl=len(ss))
             continue
+        import math
+        bad = [(k, e) for k in range(len(ss)) for e, v in enumerate(ss[k][1]) if not math.isfinite(v)]
+        if bad or not all(math.isfinite(s_[0]) for s_ in ss):
+            ctx.violation("euler:non-finite", "the Euler trajectory of a valid finite system holds a non-finite number (sample %d, entry %d: %r); "
+                          "x0 + dt*rate(x0) is finite" % (bad[0][0], bad[0][1], ss[bad[0][0]][1][bad[0][1]]) if bad else "a sample time is not finite",
+                          case, impl=[repr(v) for v in ss[min(1, len(ss) - 1)][1]][:12])
+            continue
         dt_si = rparse(forms["time_step"]["si"])          # what the description says, not what the script object holds
         for kstep in range(len(ss) - 1):
             if not all(abs(v) < 1e150 for v in ss[kstep][1] + ss[kstep + 1][1]):
